@@ -264,6 +264,8 @@ func (r *Run) tryReplay(o *Obligation, replayPath string) bool {
 					v := o.Model[fmt.Sprintf("%s[%d]", prefix, i)]
 					if v == "" || !isIntLit(v) {
 						v = "0"
+					} else if len(v) > 3 {
+						v = "0" // not a byte: unconstrained by the obligation
 					}
 					parts = append(parts, v)
 				}
